@@ -140,8 +140,12 @@ func (ch *channel) Send(ctx async.Context, data []byte) status.Status {
 		if st := s.decrementSendWindow(ctx, data); !st.OK() {
 			return st
 		}
-		// Send message
-		return s.sender.sendData(ctx, data)
+		// Send message, return the window when not sent
+		st := s.sender.sendData(ctx, data)
+		if !st.OK() {
+			s.sendWindow.Add(int32(len(data)))
+		}
+		return st
 	}
 
 	// Open channel
